@@ -28,7 +28,8 @@ Init == pc = "pick" /\ mode \in Modes /\ frame = << >> /\ info = << >> /\ out = 
 
 Set(f, i) ==
     /\ pc' = "done" /\ frame' = f /\ info' = i /\ out' = TecmpDecode(f) /\ UNCHANGED mode
-    /\ hist' = << [op |-> "new"], [op |-> "decode", in |-> f] >>
+    (* the conversion is a function of the frame: the same frame again, on the same decoder, converts to the same packets *)
+    /\ hist' = << [op |-> "new"], [op |-> "decode", in |-> f], [op |-> "decode", in |-> f] >>
 
 CanP(arb, n, have, crc) == arb \o << n >> \o B(have, 40) \o crc
 
